@@ -1,7 +1,807 @@
-//! C13 — not implemented yet (see DESIGN.md section 4).
-use kit::Run;
-use serde_json::Value;
+//! C13 — range hashing equals the digest of exactly the selected bytes, independent of chunk size and
+//! thread pipelining.
+//!
+//! (a) S-inp, exhaustive small scope on the real `hash_stream_by_alg` (public) and on the hook
+//!     `verif_hooks::hash_stream_with_buf` (caller chosen read-chunk size): every stream length, every multiset of
+//!     ranges over a value set that contains the u64 extremes, both modes, BMFF offset markers, every chunk size.
+//!     Oracle = SHA-2 (`sha2` crate, called directly) of a byte-filter reference selection.
+//! (b) S-sched: the worker-thread pipeline resolves thread creation and channels through
+//!     `verif_hooks::sched`; with shuttle installed behind that facade a depth-first scheduler explores ALL
+//!     interleavings of the reader thread and the per-chunk hash workers. Same digest on every schedule, no
+//!     deadlock, an injected stream error is returned on every schedule.
+//!
+//! Mutants caught (tools/mutant_run.sh G <diff> C13 quick):
+//!   C13-sort-by-end.diff        ranges sorted by end instead of start           -> VIOLATION (past-end-accepted / wrong-digest)
+//!   C13-shared-hasher-race.diff workers update a shared hasher, reader does not wait -> VIOLATION (schedule-dependent digest)
 
-pub fn run(_run: &Run, _replay: Option<&Value>) {
-    kit::ev::machinery("C13: check not implemented");
+use c2pa::{
+    verif_hooks::sched::{self, AnyMsg, RecvFn, SchedHooks, SendFn},
+    HashRange,
+};
+use kit::{
+    ev::hex,
+    par,
+    streams::{Dev, FaultStream, Plan},
+    Run,
+};
+use serde_json::{json, Value};
+use sha2::{Digest, Sha256, Sha384, Sha512};
+use std::{
+    collections::BTreeSet,
+    io::Cursor,
+    sync::{
+        atomic::{AtomicU64, Ordering},
+        Arc, Mutex,
+    },
+};
+
+const HUGE: [u64; 3] = [u32::MAX as u64, 1 << 63, u64::MAX];
+const ALGS: [&str; 3] = ["sha256", "sha384", "sha512"];
+
+fn stream_bytes(l: usize) -> Vec<u8> {
+    // distinct, non-zero, not equal to any byte of a small big-endian offset
+    (0..l).map(|i| 0xA1u8.wrapping_add((i as u8).wrapping_mul(7))).collect()
+}
+
+fn sha(alg: &str, data: &[u8]) -> Vec<u8> {
+    match alg {
+        "sha256" => Sha256::digest(data).to_vec(),
+        "sha384" => Sha384::digest(data).to_vec(),
+        "sha512" => Sha512::digest(data).to_vec(),
+        _ => kit::ev::machinery("reference: unknown algorithm"),
+    }
+}
+
+#[derive(Clone, Debug, PartialEq)]
+struct Case {
+    l: usize,
+    /// plain ranges (start, length)
+    ranges: Vec<(u64, u64)>,
+    /// marker positions: HashRange::new(p, 1) with set_bmff_offset(p), as the BMFF hasher builds them
+    markers: Vec<u64>,
+    excl: bool,
+    alg: &'static str,
+    /// pass `None` instead of `Some(vec![])` when there is nothing to pass
+    none_when_empty: bool,
+}
+
+impl Case {
+    fn json(&self) -> Value {
+        json!({"kind": "inp", "L": self.l, "ranges": self.ranges, "markers": self.markers,
+               "mode": if self.excl {"exclusion"} else {"inclusion"}, "alg": self.alg, "none_when_empty": self.none_when_empty})
+    }
+
+    fn from_json(v: &Value) -> Case {
+        let alg = ALGS.iter().find(|a| Some(**a) == v["alg"].as_str()).copied().unwrap_or("sha256");
+        Case {
+            l: v["L"].as_u64().unwrap_or(0) as usize,
+            ranges: v["ranges"].as_array().map(|a| a.iter().map(|p| (p[0].as_u64().unwrap_or(0), p[1].as_u64().unwrap_or(0))).collect()).unwrap_or_default(),
+            markers: v["markers"].as_array().map(|a| a.iter().filter_map(|p| p.as_u64()).collect()).unwrap_or_default(),
+            excl: v["mode"].as_str() != Some("inclusion"),
+            alg,
+            none_when_empty: v["none_when_empty"].as_bool().unwrap_or(true),
+        }
+    }
+
+    /// The argument handed to the SDK. `descending` = by start descending (unsorted from the SDK's point of view).
+    fn hash_ranges(&self, descending: bool) -> Option<Vec<HashRange>> {
+        if self.ranges.is_empty() && self.markers.is_empty() && self.none_when_empty {
+            return None;
+        }
+        let mut v: Vec<HashRange> = vec![];
+        for p in &self.markers {
+            let mut r = HashRange::new(*p, 1);
+            r.set_bmff_offset(*p);
+            v.push(r);
+        }
+        for (s, l) in &self.ranges {
+            v.push(HashRange::new(*s, *l));
+        }
+        if descending {
+            v.sort_by(|a, b| (b.start(), b.length()).cmp(&(a.start(), a.length())));
+        } else {
+            v.sort_by(|a, b| (a.start(), a.length()).cmp(&(b.start(), b.length())));
+        }
+        Some(v)
+    }
+}
+
+/// What the property demands of one case.
+#[derive(Debug, Clone, PartialEq)]
+enum Expect {
+    /// empty stream: an explicit error or the digest of nothing (never a panic)
+    EmptyStream { digest_allowed: bool },
+    /// a non-empty range reaches past the end (or overflows u64): must be an error
+    MustErr { offender_has_greatest_start: bool },
+    /// one of these digests; `err_also_ok` when an EMPTY range lies beyond the end (the text does not say whether that "reaches past the end")
+    Digest { any_of: Vec<Vec<u8>>, err_also_ok: bool, proper_selection: bool },
+    /// markers inside excluded regions / markers in inclusion mode: the property gives no reference; only
+    /// chunk-size independence and absence of panics are demanded
+    NoReference,
+}
+
+/// Boring reference: a byte filter.
+fn expect(c: &Case, data: &[u8]) -> Expect {
+    let l = c.l as u64;
+    let past = |(s, n): &(u64, u64)| *n > 0 && s.checked_add(*n).map(|e| e > l).unwrap_or(true);
+    let offenders: Vec<&(u64, u64)> = c.ranges.iter().filter(|r| past(r)).collect();
+    if c.l == 0 {
+        return Expect::EmptyStream { digest_allowed: offenders.is_empty() };
+    }
+    if !offenders.is_empty() {
+        let max_start = c.ranges.iter().map(|r| r.0).chain(c.markers.iter().copied()).max().unwrap_or(0);
+        return Expect::MustErr { offender_has_greatest_start: offenders.iter().any(|r| r.0 >= max_start) };
+    }
+    let err_also_ok = c.ranges.iter().any(|(s, n)| *n == 0 && *s > l);
+    if c.excl {
+        let excluded = |i: u64| c.ranges.iter().any(|(s, n)| *n > 0 && i >= *s && i - *s < *n);
+        if c.markers.iter().any(|m| excluded(*m)) {
+            return Expect::NoReference;
+        }
+        let mut sel: Vec<u8> = vec![];
+        for i in 0..l {
+            if !excluded(i) {
+                if c.markers.contains(&i) {
+                    sel.extend_from_slice(&i.to_be_bytes());
+                }
+                sel.push(data[i as usize]);
+            }
+        }
+        let proper = sel.len() != data.len() || !c.markers.is_empty();
+        Expect::Digest { any_of: vec![sha(c.alg, &sel)], err_also_ok, proper_selection: proper }
+    } else {
+        if !c.markers.is_empty() {
+            return Expect::NoReference;
+        }
+        let mut rs: Vec<(u64, u64)> = c.ranges.iter().filter(|r| r.1 > 0).cloned().collect();
+        if c.ranges.is_empty() && c.none_when_empty {
+            // no range argument at all: the whole stream
+            return Expect::Digest { any_of: vec![sha(c.alg, data)], err_also_ok, proper_selection: false };
+        }
+        rs.sort();
+        // "in range order" = by start; ranges with equal starts may come in either order
+        let mut orders: Vec<Vec<(u64, u64)>> = vec![vec![]];
+        let mut i = 0;
+        while i < rs.len() {
+            let mut j = i;
+            while j < rs.len() && rs[j].0 == rs[i].0 {
+                j += 1;
+            }
+            let group = &rs[i..j];
+            let mut next = vec![];
+            for perm in permutations(group) {
+                for o in &orders {
+                    let mut x = o.clone();
+                    x.extend(perm.iter().cloned());
+                    next.push(x);
+                }
+            }
+            orders = next;
+            i = j;
+        }
+        let mut any_of: Vec<Vec<u8>> = vec![];
+        for o in orders {
+            let mut sel = vec![];
+            for (s, n) in o {
+                sel.extend_from_slice(&data[s as usize..(s + n) as usize]);
+            }
+            let d = sha(c.alg, &sel);
+            if !any_of.contains(&d) {
+                any_of.push(d);
+            }
+        }
+        Expect::Digest { any_of, err_also_ok, proper_selection: true }
+    }
+}
+
+fn permutations(g: &[(u64, u64)]) -> Vec<Vec<(u64, u64)>> {
+    if g.len() <= 1 {
+        return vec![g.to_vec()];
+    }
+    let mut out: Vec<Vec<(u64, u64)>> = vec![];
+    for i in 0..g.len() {
+        let mut rest = g.to_vec();
+        let x = rest.remove(i);
+        for mut p in permutations(&rest) {
+            p.insert(0, x);
+            if !out.contains(&p) {
+                out.push(p);
+            }
+        }
+    }
+    out
+}
+
+/// Alternative (wrong) model used ONLY to name a failure: a one-byte included island that is also a marker
+/// position contributes offset‖offset.
+fn island_defect_digest(c: &Case, data: &[u8]) -> Option<Vec<u8>> {
+    if !c.excl || c.markers.is_empty() {
+        return None;
+    }
+    let l = c.l as u64;
+    let excluded = |i: u64| c.ranges.iter().any(|(s, n)| *n > 0 && i >= *s && i - *s < *n);
+    let mut sel = vec![];
+    let mut any = false;
+    for i in 0..l {
+        if excluded(i) {
+            continue;
+        }
+        let island = (i == 0 || excluded(i - 1) || c.markers.contains(&i)) && (i + 1 >= l || excluded(i + 1) || c.markers.contains(&(i + 1)));
+        if c.markers.contains(&i) {
+            sel.extend_from_slice(&i.to_be_bytes());
+            if island {
+                sel.extend_from_slice(&i.to_be_bytes());
+                any = true;
+                continue;
+            }
+        }
+        sel.push(data[i as usize]);
+    }
+    any.then(|| sha(c.alg, &sel))
+}
+
+type Obs = Result<Result<Vec<u8>, String>, String>; // panic | (digest | error kind)
+
+fn call_hook(c: &Case, data: &[u8], buf: usize) -> Obs {
+    par::guard(|| {
+        c2pa::verif_hooks::hash_stream_with_buf(c.alg, &mut Cursor::new(data), c.hash_ranges(true), c.excl, buf).map_err(|e| kit::sdk::err_kind(&e))
+    })
+}
+
+fn call_public(c: &Case, data: &[u8], descending: bool) -> Obs {
+    par::guard(|| c2pa::hash_stream_by_alg(c.alg, &mut Cursor::new(data), c.hash_ranges(descending), c.excl).map_err(|e| kit::sdk::err_kind(&e)))
+}
+
+fn show(o: &Obs) -> String {
+    match o {
+        Err(p) => format!("PANIC({p})"),
+        Ok(Ok(d)) => format!("Ok({})", hex(&d[..6.min(d.len())])),
+        Ok(Err(e)) => format!("Err({e})"),
+    }
+}
+
+fn same(a: &Obs, b: &Obs) -> bool {
+    match (a, b) {
+        (Ok(Ok(x)), Ok(Ok(y))) => x == y,
+        (Ok(Err(_)), Ok(Err(_))) => true, // the error kind may legitimately depend on where the problem is noticed
+        _ => false,
+    }
+}
+
+/// Execute one case with every chunk size and judge it. Returns the number of SDK calls made.
+fn judge(run: &Run, c: &Case, verbose: bool) -> u64 {
+    let data = stream_bytes(c.l);
+    let mode = if c.excl { "exclusion" } else { "inclusion" };
+    let mut obs: Vec<(String, Obs)> = vec![];
+    for buf in 1..=c.l.max(1) {
+        obs.push((format!("buf={buf}"), call_hook(c, &data, buf)));
+    }
+    obs.push(("public/descending".into(), call_public(c, &data, true)));
+    let asc = call_public(c, &data, false);
+    let n_calls = obs.len() as u64 + 1;
+    if verbose {
+        for (n, o) in &obs {
+            println!("  {n}: {}", show(o));
+        }
+        println!("  public/ascending: {}", show(&asc));
+    }
+    // 1. no panic
+    for (n, o) in obs.iter().chain(std::iter::once(&("public/ascending".to_string(), asc.clone()))) {
+        if let Err(p) = o {
+            run.outcome("panic");
+            let site = p.split(" at ").next().unwrap_or("").chars().take(60).collect::<String>();
+            run.violation(format!("panic mode={mode} markers={} msg={site}", c.markers.len().min(1)), format!("{n}: panic: {p}"), c.json());
+            return n_calls;
+        }
+    }
+    // 2. chunk-size independence (same argument order)
+    if let Some((n, o)) = obs.iter().find(|(_, o)| !same(o, &obs[0].1)) {
+        run.outcome("chunk-dependent");
+        run.violation(
+            format!("chunk-dependent mode={mode} markers={}", c.markers.len().min(1)),
+            format!("result depends on the read-chunk size: {} gives {}, {n} gives {}", obs[0].0, show(&obs[0].1), show(o)),
+            c.json(),
+        );
+        return n_calls;
+    }
+    // 3. the reference
+    let exp = expect(c, &data);
+    if verbose {
+        println!("  expected: {}", match &exp {
+            Expect::Digest { any_of, err_also_ok, .. } => format!("digest in {:?}{}", any_of.iter().map(|d| hex(&d[..6])).collect::<Vec<_>>(), if *err_also_ok { " or Err" } else { "" }),
+            other => format!("{other:?}"),
+        });
+    }
+    for (n, o) in [(&obs[0].0, &obs[0].1), (&"public/ascending".to_string(), &asc)] {
+        let r = match o {
+            Ok(r) => r,
+            Err(_) => continue,
+        };
+        match (&exp, r) {
+            (Expect::EmptyStream { .. }, Err(_)) => run.outcome("empty-stream: explicit error"),
+            (Expect::EmptyStream { digest_allowed }, Ok(d)) => {
+                if *digest_allowed && *d == sha(c.alg, b"") {
+                    run.outcome("empty-stream: digest of nothing")
+                } else {
+                    run.outcome("wrong-digest");
+                    run.violation(format!("wrong-digest empty-stream mode={mode}"), format!("{n}: empty stream gives {}", show(o)), c.json());
+                }
+            }
+            (Expect::MustErr { .. }, Err(_)) => run.outcome("past-end: rejected"),
+            (Expect::MustErr { offender_has_greatest_start }, Ok(_)) => {
+                run.outcome("past-end-accepted");
+                run.violation(
+                    format!("past-end-accepted mode={mode} offender={}", if *offender_has_greatest_start { "greatest-start" } else { "not-greatest-start" }),
+                    format!("{n}: a range reaching past the end of the {}-byte stream is accepted: {} (ranges {:?})", c.l, show(o), c.ranges),
+                    c.json(),
+                );
+            }
+            (Expect::Digest { any_of, .. }, Ok(d)) => {
+                if any_of.contains(d) {
+                    run.outcome("digest equals reference")
+                } else {
+                    run.outcome("wrong-digest");
+                    let class = if island_defect_digest(c, &data).as_ref() == Some(d) {
+                        "marker-on-one-byte-island(offset||offset)"
+                    } else if !c.markers.is_empty() {
+                        "with-markers"
+                    } else {
+                        "no-markers"
+                    };
+                    run.violation(
+                        format!("wrong-digest mode={mode} class={class}"),
+                        format!("{n}: digest {} differs from the reference {} (L={}, ranges {:?}, markers {:?})", hex(&d[..8]), hex(&any_of[0][..8]), c.l, c.ranges, c.markers),
+                        c.json(),
+                    );
+                }
+            }
+            (Expect::Digest { err_also_ok, .. }, Err(e)) => {
+                if *err_also_ok {
+                    run.outcome("empty range beyond the end: rejected")
+                } else {
+                    run.outcome("rejected-valid-input");
+                    run.violation(format!("rejected-valid-input mode={mode} err={e}"), format!("{n}: in-bounds ranges rejected with {e} (L={}, ranges {:?}, markers {:?})", c.l, c.ranges, c.markers), c.json());
+                }
+            }
+            (Expect::NoReference, _) => run.outcome("no reference (marker outside the defined domain): chunk-independent, no panic"),
+        }
+    }
+    n_calls
+}
+
+// ------------------------------------------------------------------------------------------------
+// enumeration
+
+fn values(l: usize) -> Vec<u64> {
+    (0..=(l as u64 + 1)).chain(HUGE).collect()
+}
+
+/// every multiset of <= r elements of 0..n, as sorted index vectors
+fn multisets(n: usize, r: usize) -> Vec<Vec<u16>> {
+    let mut out: Vec<Vec<u16>> = vec![vec![]];
+    let mut frontier: Vec<Vec<u16>> = vec![vec![]];
+    for _ in 0..r {
+        let mut next = vec![];
+        for m in &frontier {
+            let from = m.last().copied().unwrap_or(0) as usize;
+            for i in from..n {
+                let mut x = m.clone();
+                x.push(i as u16);
+                next.push(x);
+            }
+        }
+        out.extend(next.iter().cloned());
+        frontier = next;
+    }
+    out
+}
+
+/// every set of <= r marker positions in 0..l, at least `min` markers
+fn marker_sets(l: usize, min: usize, r: usize) -> Vec<Vec<u64>> {
+    let mut out = vec![];
+    if min == 0 {
+        out.push(vec![]);
+    }
+    if r >= 1 && min <= 1 {
+        for a in 0..l {
+            out.push(vec![a as u64]);
+        }
+    }
+    if r >= 2 {
+        for a in 0..l {
+            for b in a + 1..l {
+                out.push(vec![a as u64, b as u64]);
+            }
+        }
+    }
+    out
+}
+
+struct Space {
+    name: &'static str,
+    max_l: usize,
+    max_ranges: usize,
+    markers: (usize, usize),
+    algs: &'static [&'static str],
+}
+
+fn sweep(run: &Run, sp: &Space) {
+    let mut total_cases = 0u64;
+    let calls = AtomicU64::new(0);
+    let nontrivial = AtomicU64::new(0);
+    let sampled = AtomicU64::new(0);
+    for l in 0..=sp.max_l {
+        let vals = values(l);
+        let pairs: Vec<(u64, u64)> = vals.iter().flat_map(|s| vals.iter().map(move |n| (*s, *n))).collect();
+        let ms = multisets(pairs.len(), sp.max_ranges);
+        let marks = marker_sets(l, sp.markers.0, sp.markers.1);
+        total_cases += (ms.len() * marks.len() * 2 * sp.algs.len()) as u64;
+        par::for_each(&ms, |m| {
+            let ranges: Vec<(u64, u64)> = m.iter().map(|i| pairs[*i as usize]).collect();
+            for mk in &marks {
+                for excl in [true, false] {
+                    for alg in sp.algs {
+                        let c = Case { l, ranges: ranges.clone(), markers: mk.clone(), excl, alg, none_when_empty: true };
+                        let n = judge(run, &c, false);
+                        calls.fetch_add(n, Ordering::Relaxed);
+                        // non-trivial: the reference defines a digest of a PROPER selection of a non-empty stream
+                        if let Expect::Digest { proper_selection: true, .. } = expect(&c, &stream_bytes(l)) {
+                            nontrivial.fetch_add(1, Ordering::Relaxed);
+                            if l >= 4 && ranges.len() >= 2 && sampled.fetch_add(1, Ordering::Relaxed) % 9973 == 0 {
+                                run.sample(c.json());
+                            }
+                        }
+                    }
+                }
+            }
+        });
+    }
+    run.space(
+        &format!(
+            "{}: L in 0..={}, every multiset of <= {} ranges with start,length in {{0..L+1}} u {{2^32-1, 2^63, 2^64-1}}, {}..={} markers, exclusion+inclusion, algs {:?}; each with every max_hash_buf in 1..=L and the public entry (two argument orders)",
+            sp.name, sp.max_l, sp.max_ranges, sp.markers.0, sp.markers.1, sp.algs
+        ),
+        total_cases,
+        true,
+    );
+    run.evals(calls.load(Ordering::Relaxed));
+    run.nontrivial_n(nontrivial.load(Ordering::Relaxed));
+}
+
+// ------------------------------------------------------------------------------------------------
+// S-sched: shuttle behind the scheduler facade
+
+static SYNC_OPS: AtomicU64 = AtomicU64::new(0);
+
+fn sh_spawn(_name: String, f: Box<dyn FnOnce() + Send + 'static>) -> std::io::Result<()> {
+    SYNC_OPS.fetch_add(1, Ordering::Relaxed);
+    shuttle::thread::spawn(f);
+    Ok(())
+}
+
+fn sh_channel() -> (SendFn, RecvFn) {
+    let (tx, rx) = shuttle::sync::mpsc::channel::<AnyMsg>();
+    (
+        Box::new(move |m| {
+            SYNC_OPS.fetch_add(1, Ordering::Relaxed);
+            tx.send(m).is_ok()
+        }),
+        Box::new(move || {
+            SYNC_OPS.fetch_add(1, Ordering::Relaxed);
+            rx.recv().ok()
+        }),
+    )
+}
+
+/// DFS scheduler that counts its decisions.
+struct CountingDfs {
+    inner: shuttle::scheduler::DfsScheduler,
+    decisions: Arc<AtomicU64>,
+    executions: Arc<AtomicU64>,
+}
+
+impl shuttle::scheduler::Scheduler for CountingDfs {
+    fn new_execution(&mut self) -> Option<shuttle::scheduler::Schedule> {
+        let r = self.inner.new_execution();
+        if r.is_some() {
+            self.executions.fetch_add(1, Ordering::Relaxed);
+        }
+        r
+    }
+
+    fn next_task(&mut self, runnable: &[&shuttle::scheduler::Task], current: Option<shuttle::scheduler::TaskId>, is_yielding: bool) -> Option<shuttle::scheduler::TaskId> {
+        self.decisions.fetch_add(1, Ordering::Relaxed);
+        self.inner.next_task(runnable, current, is_yielding)
+    }
+
+    fn next_u64(&mut self) -> u64 {
+        self.inner.next_u64()
+    }
+}
+
+#[derive(Clone, Debug)]
+struct SchedCase {
+    c: Case,
+    buf: usize,
+    /// inject a sticky I/O error at this stream call
+    fail_at: Option<u64>,
+}
+
+impl SchedCase {
+    fn json(&self) -> Value {
+        let mut v = self.c.json();
+        v["kind"] = json!("sched");
+        v["buf"] = json!(self.buf);
+        v["fail_at"] = json!(self.fail_at);
+        v
+    }
+}
+
+/// number of pipeline stages (chunks) of the longest hashed run
+fn stages(c: &Case, buf: usize) -> usize {
+    let l = c.l as u64;
+    let excluded = |i: u64| c.ranges.iter().any(|(s, n)| *n > 0 && i >= *s && i - *s < *n);
+    let mut best = 0usize;
+    let mut cur = 0usize;
+    for i in 0..l {
+        if excluded(i) || (c.markers.contains(&i) && cur > 0) {
+            best = best.max(cur);
+            cur = 0;
+        }
+        if !excluded(i) {
+            cur += 1;
+        }
+    }
+    best = best.max(cur);
+    best.div_ceil(buf)
+}
+
+fn sched_body(sc: &SchedCase) -> Result<Vec<u8>, String> {
+    let data = stream_bytes(sc.c.l);
+    let plan = match sc.fail_at {
+        Some(k) => Plan::one(k, Dev::FailSticky),
+        None => Plan::clean(),
+    };
+    let mut s = FaultStream::new(data, plan);
+    c2pa::verif_hooks::hash_stream_with_buf(sc.c.alg, &mut s, sc.c.hash_ranges(true), sc.c.excl, sc.buf).map_err(|e| format!("{e:?}"))
+}
+
+struct SchedResult {
+    executions: u64,
+    decisions: u64,
+    results: BTreeSet<String>,
+    failure: Option<String>,
+}
+
+/// Explore ALL interleavings of one case (hooks must be installed by the caller).
+fn explore(sc: &SchedCase) -> SchedResult {
+    let results: Arc<Mutex<BTreeSet<String>>> = Arc::new(Mutex::new(BTreeSet::new()));
+    let decisions = Arc::new(AtomicU64::new(0));
+    let executions = Arc::new(AtomicU64::new(0));
+    let (r2, sc2) = (results.clone(), sc.clone());
+    let sched = CountingDfs { inner: shuttle::scheduler::DfsScheduler::new(None, false), decisions: decisions.clone(), executions: executions.clone() };
+    let mut cfg = shuttle::Config::default();
+    cfg.failure_persistence = shuttle::FailurePersistence::None;
+    let out = par::guard(move || {
+        let runner = shuttle::Runner::new(sched, cfg);
+        runner.run(move || {
+            let r = match sched_body(&sc2) {
+                Ok(d) => format!("Ok({})", hex(&d)),
+                Err(e) => format!("Err({})", e.chars().take(80).collect::<String>()),
+            };
+            r2.lock().unwrap_or_else(|e| e.into_inner()).insert(r);
+        })
+    });
+    let set = results.lock().unwrap_or_else(|e| e.into_inner()).clone();
+    SchedResult { executions: executions.load(Ordering::Relaxed), decisions: decisions.load(Ordering::Relaxed), results: set, failure: out.err() }
+}
+
+fn sched_cases(run: &Run) -> Vec<SchedCase> {
+    let max_l = run.tier.pick(6usize, 7usize);
+    let mut shapes: Vec<Case> = vec![];
+    for l in 2..=max_l {
+        // whole stream; one exclusion in the middle (two hashed runs); a marker splitting the stream; inclusion of an inner run
+        shapes.push(Case { l, ranges: vec![], markers: vec![], excl: true, alg: "sha256", none_when_empty: true });
+        if l >= 5 {
+            shapes.push(Case { l, ranges: vec![(2, 1)], markers: vec![], excl: true, alg: "sha256", none_when_empty: true });
+            shapes.push(Case { l, ranges: vec![], markers: vec![2], excl: true, alg: "sha384", none_when_empty: true });
+            shapes.push(Case { l, ranges: vec![(1, l as u64 - 1)], markers: vec![], excl: false, alg: "sha512", none_when_empty: true });
+        }
+    }
+    let mut v = vec![];
+    for c in shapes {
+        for buf in 1..=c.l {
+            let st = stages(&c, buf);
+            if (2..=4).contains(&st) {
+                v.push(SchedCase { c: c.clone(), buf, fail_at: None });
+            }
+        }
+    }
+    v
+}
+
+fn judge_sched(run: &Run, sc: &SchedCase, verbose: bool) -> (u64, u64) {
+    let data = stream_bytes(sc.c.l);
+    let r = explore(sc);
+    if verbose {
+        println!("  schedules explored: {}, scheduling decisions: {}, distinct results: {:?}, failure: {:?}", r.executions, r.decisions, r.results, r.failure);
+    }
+    run.evals(r.executions);
+    let shape = format!("mode={} markers={}", if sc.c.excl { "exclusion" } else { "inclusion" }, sc.c.markers.len());
+    if let Some(f) = &r.failure {
+        let kind = if f.contains("deadlock") { "deadlock" } else { "panic" };
+        run.outcome(format!("sched: {kind}"));
+        run.violation(format!("sched-{kind} {shape} fault={}", sc.fail_at.is_some()), format!("shuttle execution failed after {} schedules: {}", r.executions, f.chars().take(300).collect::<String>()), sc.json());
+        return (r.executions, r.decisions);
+    }
+    match sc.fail_at {
+        None => {
+            let want = match expect(&sc.c, &data) {
+                Expect::Digest { any_of, .. } => any_of.iter().map(|d| format!("Ok({})", hex(d))).collect::<Vec<_>>(),
+                _ => kit::ev::machinery("C13 sched: case without a reference digest"),
+            };
+            if r.results.len() != 1 {
+                run.outcome("sched: schedule-dependent digest");
+                run.violation(format!("schedule-dependent-digest {shape}"), format!("{} schedules give {} different results: {:?}", r.executions, r.results.len(), r.results.iter().map(|s| s.chars().take(24).collect::<String>()).collect::<Vec<_>>()), sc.json());
+            } else if !want.contains(r.results.iter().next().unwrap_or(&String::new())) {
+                // the S-inp part reports wrong digests with their own keys; keep the key distinct here
+                run.outcome("sched: same wrong digest on every schedule");
+                run.violation(format!("sched-wrong-digest {shape}"), format!("all {} schedules give {:?}, reference {:?}", r.executions, r.results, want), sc.json());
+            } else {
+                run.outcome("sched: reference digest on every schedule");
+            }
+        }
+        Some(k) => {
+            let bad: Vec<&String> = r.results.iter().filter(|s| !(s.starts_with("Err(") && kit::streams::is_injected_text(s))).collect();
+            if !bad.is_empty() {
+                run.outcome("sched: injected error lost");
+                run.violation(format!("sched-injected-error-lost {shape}"), format!("stream fails (sticky) at call {k}; some of the {} schedules end with {:?}", r.executions, bad.iter().map(|s| s.chars().take(40).collect::<String>()).collect::<Vec<_>>()), sc.json());
+            } else {
+                run.outcome("sched: injected error returned on every schedule");
+            }
+        }
+    }
+    (r.executions, r.decisions)
+}
+
+fn sched_phase(run: &Run) {
+    let hooks = SchedHooks { spawn: sh_spawn, channel: sh_channel };
+    let base = sched_cases(run);
+    // number of stream calls of the undisturbed run (deterministic: the reader thread alone touches the stream)
+    let mut cases: Vec<SchedCase> = vec![];
+    for sc in &base {
+        let mut s = FaultStream::new(stream_bytes(sc.c.l), Plan::clean());
+        let r = c2pa::verif_hooks::hash_stream_with_buf(sc.c.alg, &mut s, sc.c.hash_ranges(true), sc.c.excl, sc.buf);
+        if r.is_err() {
+            kit::ev::machinery(format!("C13 sched: undisturbed free-running call fails: {r:?}"));
+        }
+        let calls = s.snapshot().calls;
+        cases.push(sc.clone());
+        for k in 0..calls {
+            cases.push(SchedCase { fail_at: Some(k), ..sc.clone() });
+        }
+    }
+    run.space("S-sched: (input shape, max_hash_buf giving 2..=4 pipeline stages, no fault | sticky stream error at call k for every k); ALL interleavings of each by shuttle DFS (no iteration bound)", cases.len() as u64, true);
+    sched::install(Some(hooks));
+    let (mut execs, mut decs, mut max_sched) = (0u64, 0u64, 0u64);
+    let ops0 = SYNC_OPS.load(Ordering::Relaxed);
+    for (i, sc) in cases.iter().enumerate() {
+        let (e, d) = judge_sched(run, sc, false);
+        execs += e;
+        decs += d;
+        max_sched = max_sched.max(e);
+        if sc.fail_at.is_none() {
+            run.nontrivial(format!("sched/{i}"));
+            if i % 7 == 0 {
+                let mut v = sc.json();
+                v["schedules_explored"] = json!(e);
+                run.sample(v);
+            }
+        } else if e > 1 {
+            run.nontrivial(format!("sched/{i}"));
+        }
+    }
+    sched::install(None);
+    run.states(execs);
+    run.transitions(decs);
+    run.traces(execs);
+    run.extra("schedules_explored", json!(execs));
+    run.extra("max_schedules_for_one_input", json!(max_sched));
+    run.extra("hooked_spawn_send_recv_operations", json!(SYNC_OPS.load(Ordering::Relaxed) - ops0));
+
+    // free-running pass of the same bodies with real threads (hooks uninstalled): not an enumeration, a sanity pass
+    let reps = run.tier.pick(40u64, 400u64);
+    let n = cases.len() as u64 * reps;
+    par::for_each_index(n, |i| {
+        let sc = &cases[(i % cases.len() as u64) as usize];
+        let r = par::guard(|| sched_body(sc));
+        let ok = match (&r, sc.fail_at) {
+            (Ok(Ok(d)), None) => matches!(expect(&sc.c, &stream_bytes(sc.c.l)), Expect::Digest { any_of, .. } if any_of.contains(d)),
+            (Ok(Err(e)), Some(_)) => kit::streams::is_injected_text(e),
+            _ => false,
+        };
+        if !ok {
+            run.violation("free-running-pipeline", format!("real threads: {:?}", r.map(|x| x.map(|d| hex(&d[..8])))), sc.json());
+        }
+    });
+    run.evals(n);
+    run.extra("free_running_executions", json!(n));
+}
+
+pub fn run(run: &Run, replay: Option<&Value>) {
+    run.rule(
+        "S-inp: the complete product described under 'spaces' is executed on hash_stream_with_buf for every chunk size and on the public hash_stream_by_alg; \
+         evaluations = SDK hashing calls. non-trivial = (L, ranges, markers, mode, alg) tuples for which the reference defines the digest of a PROPER selection \
+         (not the whole stream, not an error), counted once per tuple, plus S-sched inputs whose DFS explored more than one schedule. \
+         S-sched: states = schedules (complete executions) explored by the depth-first scheduler, transitions = scheduling decisions taken.",
+    );
+    run.assume("reference digests come from the sha2 crate called directly on the reference selection (trusted)");
+    run.assume("L = 0: an explicit Err is accepted as well as SHA(\"\") (decision recorded in DESIGN.md C13); markers inside excluded regions and markers in inclusion mode have no reference in the property: only chunk-size independence and absence of panics are demanded there");
+    run.assume("an EMPTY range that starts beyond the end may be rejected or ignored (the property does not say whether it 'reaches past the end')");
+    run.assume("shuttle's DfsScheduler enumerates every interleaving at its scheduling points (spawn, channel send/recv, thread exit); SHA-2 updates between those points are thread-local computations");
+    run.assume("markers are built as the BMFF hasher builds them: HashRange::new(p,1) + set_bmff_offset(p)");
+
+    if let Some(v) = replay {
+        run.eval();
+        if v["kind"] == "sched" {
+            let sc = SchedCase { c: Case::from_json(v), buf: v["buf"].as_u64().unwrap_or(1) as usize, fail_at: v["fail_at"].as_u64() };
+            println!("replay S-sched case {}", sc.json());
+            sched::install(Some(SchedHooks { spawn: sh_spawn, channel: sh_channel }));
+            judge_sched(run, &sc, true);
+            sched::install(None);
+        } else {
+            let c = Case::from_json(v);
+            println!("replay S-inp case {}", c.json());
+            judge(run, &c, true);
+        }
+        return;
+    }
+
+    // own the nondeterminism: one pipelined case twice
+    {
+        let c = Case { l: 6, ranges: vec![(2, 1)], markers: vec![4], excl: true, alg: "sha256", none_when_empty: true };
+        let d = stream_bytes(6);
+        if !same(&call_hook(&c, &d, 1), &call_hook(&c, &d, 1)) {
+            kit::ev::machinery("C13: the same hashing call gives two different results");
+        }
+    }
+
+    // S-sched first, single-threaded (the facade hooks are process-wide)
+    sched_phase(run);
+
+    // S-inp
+    let q = !run.tier.is_thorough();
+    let spaces: Vec<Space> = if q {
+        vec![
+            Space { name: "A(no markers)", max_l: 8, max_ranges: 2, markers: (0, 0), algs: &["sha256"] },
+            Space { name: "B(markers)", max_l: 6, max_ranges: 2, markers: (1, 2), algs: &["sha256"] },
+            Space { name: "C(other algorithms)", max_l: 4, max_ranges: 2, markers: (0, 2), algs: &["sha384", "sha512"] },
+        ]
+    } else {
+        vec![
+            Space { name: "A(no markers)", max_l: 12, max_ranges: 2, markers: (0, 0), algs: &["sha256"] },
+            Space { name: "A3(no markers, 3 ranges)", max_l: 7, max_ranges: 3, markers: (0, 0), algs: &["sha256"] },
+            Space { name: "B(markers)", max_l: 9, max_ranges: 2, markers: (1, 2), algs: &["sha256"] },
+            Space { name: "B3(markers, 3 ranges)", max_l: 5, max_ranges: 3, markers: (1, 2), algs: &["sha256"] },
+            Space { name: "C(other algorithms)", max_l: 6, max_ranges: 2, markers: (0, 2), algs: &["sha384", "sha512"] },
+        ]
+    };
+    for sp in &spaces {
+        sweep(run, sp);
+    }
+    // `Some(vec![])` instead of `None`
+    for l in 0..=4usize {
+        for excl in [true, false] {
+            let c = Case { l, ranges: vec![], markers: vec![], excl, alg: "sha256", none_when_empty: false };
+            // Some(empty) means "no ranges": the whole stream in both modes as far as the SDK documents; the reference
+            // for inclusion mode with an empty list is the digest of nothing OR the whole stream (the text is silent): judged for panics/chunking only
+            let data = stream_bytes(l);
+            let a = call_hook(&c, &data, 1);
+            let b = call_public(&c, &data, true);
+            run.evals(2);
+            if a.is_err() || b.is_err() || !same(&a, &b) {
+                run.violation("empty-range-list", format!("Some(vec![]) : {} vs {}", show(&a), show(&b)), c.json());
+            }
+        }
+    }
 }
